@@ -369,7 +369,7 @@ func checkContracts(c *Ctx, scope []*ssa.Function) {
 			}
 			for _, as := range sites {
 				s, site := as.act, as.site
-				rc := s.RC[site.Block()]
+				rc := s.RCAt(site)
 				var args []*E
 				for _, a := range site.Common().Args {
 					v := s.Env[a]
@@ -465,12 +465,12 @@ func checkNil(c *Ctx, scope []*ssa.Function) {
 			for _, r := range *rs {
 				switch r := r.(type) {
 				case *ssa.FieldAddr, *ssa.UnOp:
-					if !u.bdd.Implies(s.RC[r.Block()], nonNil) {
+					if !u.bdd.Implies(s.RCAt(r), nonNil) {
 						ok = false
 					}
 				case *ssa.Call:
 					// passing the receiver on: callee must be nil-safe too (not needed today)
-					if r.Call.Args != nil && len(r.Call.Args) > 0 && r.Call.Args[0] == ssa.Value(fn.Params[0]) && !u.bdd.Implies(s.RC[r.Block()], nonNil) {
+					if r.Call.Args != nil && len(r.Call.Args) > 0 && r.Call.Args[0] == ssa.Value(fn.Params[0]) && !u.bdd.Implies(s.RCAt(r), nonNil) {
 						ok = false
 					}
 				}
@@ -541,7 +541,7 @@ func checkNil(c *Ctx, scope []*ssa.Function) {
 				c.Fail("C12.R2", key, in.Pos(), "UNDECIDED: value not evaluated")
 				return
 			}
-			rc := s.RC[in.Block()]
+			rc := s.RCAt(in)
 			nonNil := u.bdd.Not(u.ToBool(u.Eq(be, u.mk("nil", "", nil))))
 			if u.bdd.Implies(rc, nonNil) {
 				c.OK("C12.R2", key, in.Pos(), "dominated by a nil test on the same value")
@@ -996,6 +996,32 @@ func checkInert(c *Ctx) {
 
 // cutLoop: a loop-carried string p with next = after-part of strings.Cut(p, sep), sep a non-empty constant, running while p != "".
 func cutLoop(u *U, s *Summary, l *Loop) bool {
+	cont := contCond(u, s, l)
+	// the continue condition of the NEXT iteration, per back edge, when the loop is controlled by a
+	// loop-carried flag (for found := true; found; { _, rest, found = strings.Cut(rest, sep) })
+	contNext := func(edge int) Ref {
+		for _, in := range l.Header.Instrs {
+			ph, ok := in.(*ssa.Phi)
+			if !ok {
+				break
+			}
+			if b, isB := ph.Type().Underlying().(*types.Basic); !isB || b.Kind() != types.Bool {
+				continue
+			}
+			pe := s.Env[ph]
+			v := s.Env[ph.Edges[edge]]
+			if pe == nil || v == nil {
+				continue
+			}
+			switch cont {
+			case u.ToBool(pe):
+				return u.ToBool(v)
+			case u.bdd.Not(u.ToBool(pe)):
+				return u.bdd.Not(u.ToBool(v))
+			}
+		}
+		return True
+	}
 	for _, in := range l.Header.Instrs {
 		ph, ok := in.(*ssa.Phi)
 		if !ok {
@@ -1005,6 +1031,7 @@ func cutLoop(u *U, s *Summary, l *Loop) bool {
 			continue
 		}
 		p := s.Env[ph]
+		nonEmpty := u.bdd.Not(u.ToBool(u.Eq(p, u.Str(""))))
 		okAll, n := true, 0
 		for i, pr := range l.Header.Preds {
 			if !l.Blocks[pr] {
@@ -1016,9 +1043,18 @@ func cutLoop(u *U, s *Summary, l *Loop) bool {
 				okAll = false
 				continue
 			}
-			// every alternative of the next value is "" or a suffix p[lo:] with lo >= 1
+			cn := contNext(i)
+			// every alternative of the next value that is followed by another iteration is a suffix
+			// p[lo:] with lo >= 1, or "" while p is non-empty: len(p) strictly decreases
 			for leaf, cond := range u.Leaves(v) {
+				c2 := u.bdd.And(u.bdd.And(s.RC[pr], cond), cn)
+				if c2 == False {
+					continue
+				}
 				if sv, isS := leaf.StrVal(); isS && sv == "" {
+					if !u.bdd.Implies(u.bdd.And(cont, c2), nonEmpty) && cont != nonEmpty {
+						okAll = false
+					}
 					continue
 				}
 				if leaf.Op != "slice" || leaf.Args[0] != p || leaf.Args[2] != nil || leaf.Args[1] == nil {
@@ -1026,7 +1062,7 @@ func cutLoop(u *U, s *Summary, l *Loop) bool {
 					continue
 				}
 				L := NewLin(u)
-				L.assumeCond(u.bdd.And(s.RC[pr], cond))
+				L.assumeCond(c2)
 				L.registerTerms(leaf.Args[1])
 				L.resolveNeqs()
 				if !L.entails(L.linearize(u.Int(1)), L.linearize(leaf.Args[1]), 0) {
@@ -1034,8 +1070,7 @@ func cutLoop(u *U, s *Summary, l *Loop) bool {
 				}
 			}
 		}
-		cont := contCond(u, s, l)
-		if okAll && n > 0 && cont == u.bdd.Not(u.ToBool(u.Eq(p, u.Str("")))) {
+		if okAll && n > 0 {
 			return true
 		}
 	}
